@@ -18,6 +18,8 @@ def load_checks():
     out = {}
     accepted = set(open(os.path.join(ROOT, "checks", "ACCEPTED")).read().split())
     for f in sorted(glob.glob(os.path.join(ROOT, "checks", "c[0-9]*.py"))):
+        if os.path.basename(f)[:-3].upper() not in accepted:
+            continue
         mod = importlib.import_module(os.path.basename(f)[:-3])
         if getattr(mod, "MANIFEST", None) and mod.PID in accepted:
             out[mod.PID] = mod.MANIFEST
